@@ -15,6 +15,7 @@ func TestVsymReplay(t *testing.T) {
 		"VsymC09Identities":  VsymC09Identities,
 		"VsymC09ScopeFormat": VsymC09ScopeFormat,
 		"VsymC09BlobWhole":   VsymC09BlobWhole,
+		"VsymC09StoreNames":  VsymC09StoreNames,
 		"VsymC08OCI":         VsymC08OCI,
 		"VsymC08Blob":        VsymC08Blob,
 	}); err != nil {
